@@ -82,6 +82,16 @@ Definition show_res (r : result) : rshow :=
 Definition show_atts (orig : str) (tr : list event) : list (Z * option nat) :=
   map (fun a => (fst a, if is_prefix (snd a) orig then Some (length (snd a)) else None)) (attempts tr).
 Definition show_T (orig : str) (o : rt_out) := (show_res (o_res o), o_time o, show_atts orig (o_trace o)).
+Definition show_K (orig form : str) (a : authk_out) :=
+  (show_res (ak_res a), ak_time a, show_atts orig (ak_first a), show_atts form (ak_token a), show_atts orig (ak_second a)).
+Definition show_la (orig : str) (l : list (Z * str)) : list (Z * option nat) :=
+  map (fun a => (fst a, if is_prefix (snd a) orig then Some (length (snd a)) else None)) l.
+Definition show_Z (orig form : str) (u : pushk_out) :=
+  (show_res (uk_res u), uk_time u,
+   show_atts [] (ak_first (uk_post u)), show_atts [] (ak_second (uk_post u)),
+   match uk_put u with Some a => show_atts orig (ak_first a) | None => [] end,
+   match uk_put u with Some a => show_atts orig (ak_second a) | None => [] end,
+   show_la form (attempts (ak_token (uk_post u)) ++ match uk_put u with Some a => attempts (ak_token a) | None => [] end)).
 Definition show_A (orig : str) (a : auth_out) :=
   (show_res (a_res a), a_time a, show_atts orig (a_first a), show_atts orig (a_second a), show_atts orig (a_third a)).
 """
@@ -133,6 +143,8 @@ def _vm_atts(s):
 def _vm_res(s):
     if s.startswith("RESP"):
         return "SResp %s" % _z(s[4:])
+    if s.startswith("ETOKEN"):
+        return "STok %s" % _z(s[6:])
     if s.startswith("EERR"):
         return "SErr %s %s %s" % tuple("true" if c == "1" else "false" for c in s[4:7])
     return {"EPRED": "SPred", "ECTX": "SCtx", "PANIC": "SPanic", "ENOTREWINDABLE": "SNotRew", "EGETBODY": "SGetBody", "FUEL": "SFuel"}[s]
@@ -140,7 +152,10 @@ def _vm_res(s):
 
 def _vm_goal(c, o):
     p = c.split(" ")
-    if p[0] in ("T", "A", "W", "V"):
+    tok = None
+    if p[0] in ("Q", "Z"):
+        tok, p = p[-2:], p[:-2]
+    if p[0] in ("T", "A", "W", "V", "Q", "Z"):
         _, pred, mr, mn, mx, tbl, dflt, cn, kind, data, script, _opts = p
         pol = "(table_policy %s %s %s %s [%s] %s)" % (_vm_pred(pred), _z(mr), _z(mn), _z(mx),
                                                      "; ".join(_z(x) for x in _c17_ints(tbl)), _z(dflt))
@@ -165,6 +180,20 @@ def _vm_goal(c, o):
             cancel = "(Some (%s, %s))" % (_z(t), "true" if k == "d" else "false")
         f = dict(x.split("=") for x in o.split(" ")[1:])
         res = _vm_res(o.split(" ")[0])
+        if tok:
+            tb = "(mkBody KNone [])" if tok[0] == "G" else "(mkBody KReplay %s)" % _bytes(tok[0][1:])
+            tbehs = []
+            if tok[1] != "-":
+                for b in tok[1].split(";"):
+                    oo, r, l = b.split("/")
+                    tbehs.append("mkBeh %s %s %s" % (_vm_out(oo), "None" if r == "*" else "(Some %s%%nat)" % r, _z(l)))
+            tsc = "[" + "; ".join(tbehs) + "]"
+            if p[0] == "Q":
+                return "let bd := %s in let tb := %s in show_K (bdata bd) (bdata tb) (auth_do_tok %s %s bd %s tb %s) = (%s, %s, %s, %s, %s)" % (
+                    bd, tb, pol, cancel, sc, tsc, res, _z(f["end"]), _vm_atts(f["first"]), _vm_atts(f["token"]), _vm_atts(f["second"]))
+            po, pu = f["post"].split("|"), f["put"].split("|")
+            return "let bd := %s in let tb := %s in show_Z (bdata bd) (bdata tb) (blob_push_tok true %s %s bd %s tb %s) = (%s, %s, %s, %s, %s, %s, %s)" % (
+                bd, tb, pol, cancel, sc, tsc, res, _z(f["end"]), _vm_atts(po[0]), _vm_atts(po[1]), _vm_atts(pu[0]), _vm_atts(pu[1]), _vm_atts(f["tok"]))
         if p[0] == "T":
             return "let bd := %s in show_T (bdata bd) (round_trip %s %s bd (init_state bd) %s 0) = (%s, %s, %s)" % (
                 bd, pol, cancel, sc, res, _z(f["end"]), _vm_atts(f["first"]))
@@ -210,7 +239,7 @@ def _c17_vm_sample(d, tier, coq, build, want=300):
     floor_msgs = []
     if nb and unj * 10 > nb:
         floor_msgs.append("model leaves %d of %d exponential-backoff points unjudged (more than 10%%)" % (unj, nb))
-    quota = {"T": 90, "A": 60, "W": 50, "D": 40, "B": 60}
+    quota = {"T": 80, "A": 50, "W": 40, "D": 30, "B": 50, "Q": 30, "Z": 20}
     if small:
         quota = {k: v // 5 for k, v in quota.items()}
     total, stride, got = collections.Counter(), collections.Counter(), collections.Counter()
